@@ -11,16 +11,10 @@ What the theorems do not carry (partial): that the real classes *are* their tabl
 the first clause of the property, "no call modifies the caller's DataFrame / arrays" — monitored at run time by
 gate D (`nonmutation_checks` in the evidence), not a theorem; floating point.
 
-Registers (never-reset state) are where the real code is history-dependent.  `history_independent` is proved for
-histories in which no call sets a register (`calm`), which is every history of a `clean` class (`clean_calm`,
-ten of the sixteen tables); the full statement without `calm`
-
-    ∀ C ops o, wf C → out C (run C init ops) o = out C (run C init (normalize C ops)) o
-
-is *refuted* by `sticky_refutes` on the tables of GEstimationSNM, IPMW (uniformly missing variables),
-StochasticTMLE, AIPTW, TMLE and TimeFixedGFormula, by concrete histories; the same histories fail on the real
-classes (gate D, known findings C11-*).  When such a defect is repaired in zEpid the register is deleted from the
-table and the class becomes `clean`.
+`history_independent` is proved for histories in which no call sets a never-reset register (`calm`).  No class
+table has a register (`tables_wf`, `tables_all`), so by `clean_calm` this is *every* history of *every* class.  The
+six classes that used to have such state (known findings C11-*, repaired in zEpid) are covered like the others;
+`calm_needed` shows on two demonstration tables that the hypothesis cannot be dropped.
 -/
 import ZepidVerif.Lemmas.History
 set_option linter.unusedVariables false
@@ -138,53 +132,58 @@ theorem normalize_short (ops : List Op) :
 example : (normalize (iptw true) [⟨0, 0, false⟩, ⟨2, 1, false⟩, ⟨3, 2, false⟩, ⟨5, 3, false⟩, ⟨0, 4, false⟩, ⟨1, 5, false⟩,
     ⟨3, 6, false⟩, ⟨4, 7, false⟩, ⟨2, 8, false⟩]).length = 7 := by decide
 
-/-! ### Where the real classes are history-dependent: registers
+/-! ### The `calm` hypothesis is needed: what a never-reset register does
 
-The tables below mirror the code that exists.  Each witness is a history that sets a register and then makes it
-stale; the outcome of the next call differs from the outcome on the fresh object given the canonical list (the
-`regs` component of `Out.ok`, or `error` versus `ok` when the register locks the method).  The same histories are run
-on the real classes by gate D (known findings C11-*). -/
+No class table has a register any more (the six stale-state defects the registers stood for were repaired in zEpid and
+the registers deleted), so `history_independent` covers every history of every class (`tables_wf` + `clean_calm`).
+The tables below are *not* zEpid classes; they record the two shapes those defects had, and show that the
+unrestricted statement is false for a table with a register — i.e. that the correspondence check (gate K) would have
+to put a register back, and the theorem would stop covering the class, if such state reappeared. -/
 
-/-- **sticky_refutes** — the unrestricted statement (without `calm`) is false for the five tables with registers -/
-theorem sticky_refutes :
-    -- GEstimationSNM: fit(search), fit(closed), then summary raises; fresh object: prints
-    (∃ ops o, out (snm true) (run (snm true) init ops) o = .error ∧
-      out (snm true) (run (snm true) init (normalize (snm true) ops)) o ≠ .error) ∧
-    -- IPMW on uniformly missing variables: the second regression_models raises although it needs nothing
-    (∃ ops o k, (ipmwUniform.sig o.m).writes = some k ∧ (ipmwUniform.sig o.m).blocked = false ∧
-      out ipmwUniform (run ipmwUniform init ops) o = .error) ∧
-    -- StochasticTMLE: exposure_model(bound), exposure_model(), outcome_model, fit, then summary
-    (∃ ops o, out stochTmle (run stochTmle init ops) o ≠
-      out stochTmle (run stochTmle init (normalize stochTmle ops)) o) ∧
-    -- AIPTW / TMLE: exposure_model(custom), exposure_model(), outcome_model, fit, then summary
-    (∃ ops o, out (aiptw true) (run (aiptw true) init ops) o ≠
-      out (aiptw true) (run (aiptw true) init (normalize (aiptw true) ops)) o) ∧
-    (∃ ops o, out (tmle true) (run (tmle true) init ops) o ≠
-      out (tmle true) (run (tmle true) init (normalize (tmle true) ops)) o) ∧
-    -- TimeFixedGFormula: outcome_model, fit, fit_stochastic, then any read
-    (∃ ops o, out timeFixed (run timeFixed init ops) o ≠
-      out timeFixed (run timeFixed init (normalize timeFixed ops)) o) := by
-  refine ⟨⟨[⟨0, 0, false⟩, ⟨1, 1, false⟩, ⟨3, 2, true⟩, ⟨3, 3, false⟩], ⟨4, 4, false⟩, by decide, by decide⟩,
-    ⟨[⟨0, 0, true⟩], ⟨0, 1, true⟩, 0, by decide, by decide, by decide⟩,
-    ⟨[⟨0, 0, true⟩, ⟨0, 1, false⟩, ⟨1, 2, false⟩, ⟨2, 3, false⟩], ⟨3, 4, false⟩, by decide⟩,
-    ⟨[⟨0, 0, true⟩, ⟨0, 1, false⟩, ⟨2, 2, false⟩, ⟨3, 3, false⟩], ⟨4, 4, false⟩, by decide⟩,
-    ⟨[⟨0, 0, true⟩, ⟨0, 1, false⟩, ⟨2, 2, false⟩, ⟨3, 3, false⟩], ⟨4, 4, false⟩, by decide⟩,
-    ⟨[⟨0, 0, false⟩, ⟨1, 1, true⟩, ⟨2, 2, false⟩], ⟨4, 3, false⟩, by decide⟩⟩
+/-- a flag set by `spec(custom)` and read by `summary` (the former `_exp_model_custom`, `_specified_bound_`,
+    `_scipy_solver_obj`, `predicted_df`) -/
+def demoFlag : Cls := ⟨1, 1, [specR 0 0, fitS [0], resS]⟩
+/-- a specification call that locks itself (the former IPMW `self.missing` overwrite) -/
+def demoLock : Cls := ⟨1, 1, [{ writes := some 0, sticky := some 0, lock := some 0 }, fitS [0]]⟩
+
+/-- **calm_needed** — without `calm` both `history_independent` and `spec_accepted` fail -/
+theorem calm_needed :
+    (wf demoFlag = true ∧ ∃ ops o, out demoFlag (run demoFlag init ops) o ≠
+      out demoFlag (run demoFlag init (normalize demoFlag ops)) o) ∧
+    (wf demoLock = true ∧ ∃ ops o k, (demoLock.sig o.m).writes = some k ∧ (demoLock.sig o.m).blocked = false ∧
+      out demoLock (run demoLock init ops) o = .error) := by
+  refine ⟨⟨by decide, [⟨0, 0, true⟩, ⟨0, 1, false⟩, ⟨1, 2, false⟩], ⟨2, 3, false⟩, by decide⟩,
+    ⟨by decide, [⟨0, 0, true⟩], ⟨0, 1, true⟩, 0, by decide, by decide, by decide⟩⟩
 
 /-! ### The class tables executed by the driver satisfy the side conditions -/
 
-/-- **tables_wf** — all sixteen tables are well-formed (so the theorems above apply to them), and the ten tables
-    without registers are `clean` (so *every* history of those classes is covered by `history_independent`) -/
+/-- **tables_wf** — every table the driver executes is well-formed and has no register: the theorems above apply
+    to every history of every class -/
 theorem tables_wf :
     (∀ b, wf (iptw b) = true ∧ wf (aiptw b) = true ∧ wf (tmle b) = true ∧ wf (snm b) = true) ∧
     wf stochIptw = true ∧ wf stochTmle = true ∧ wf timeFixed = true ∧ wf survival = true ∧ wf ipsw = true ∧
-    wf gtransport = true ∧ wf aipsw = true ∧ wf ipmw = true ∧ wf ipmwUniform = true ∧ wf ipcw = true ∧
+    wf gtransport = true ∧ wf aipsw = true ∧ wf ipmw = true ∧ wf ipcw = true ∧
     wf monteCarlo = true ∧ wf iterCond = true ∧
-    (∀ b, clean (iptw b) = true) ∧ clean stochIptw = true ∧ clean survival = true ∧ clean ipsw = true ∧
-    clean gtransport = true ∧ clean aipsw = true ∧ clean ipmw = true ∧ clean ipcw = true ∧
+    (∀ b, clean (iptw b) = true ∧ clean (aiptw b) = true ∧ clean (tmle b) = true ∧ clean (snm b) = true) ∧
+    clean stochIptw = true ∧ clean stochTmle = true ∧ clean timeFixed = true ∧ clean survival = true ∧
+    clean ipsw = true ∧ clean gtransport = true ∧ clean aipsw = true ∧ clean ipmw = true ∧ clean ipcw = true ∧
     clean monteCarlo = true ∧ clean iterCond = true := by
   refine ⟨fun b => by cases b <;> decide, by decide, by decide, by decide, by decide, by decide, by decide, by decide,
-    by decide, by decide, by decide, by decide, by decide, fun b => by cases b <;> decide, by decide, by decide,
-    by decide, by decide, by decide, by decide, by decide, by decide, by decide⟩
+    by decide, by decide, by decide, by decide, fun b => by cases b <;> decide, by decide, by decide, by decide,
+    by decide, by decide, by decide, by decide, by decide, by decide, by decide, by decide⟩
+
+/-- every class name the driver accepts resolves to one of the tables above -/
+theorem tables_all (name : String) (b : Bool) (C : Cls) (h : clsByName name b = some C) :
+    wf C = true ∧ clean C = true := by
+  unfold clsByName at h
+  have t := tables_wf
+  obtain ⟨t1, t2, t3, t4, t5, t6, t7, t8, t9, t10, t11, t12, c1, c2, c3, c4, c5, c6, c7, c8, c9, c10, c11, c12⟩ := t
+  split at h <;> first
+    | (cases h; first
+        | exact ⟨(t1 b).1, (c1 b).1⟩ | exact ⟨(t1 b).2.1, (c1 b).2.1⟩ | exact ⟨(t1 b).2.2.1, (c1 b).2.2.1⟩
+        | exact ⟨(t1 b).2.2.2, (c1 b).2.2.2⟩ | exact ⟨t2, c2⟩ | exact ⟨t3, c3⟩ | exact ⟨t4, c4⟩ | exact ⟨t5, c5⟩
+        | exact ⟨t6, c6⟩ | exact ⟨t7, c7⟩ | exact ⟨t8, c8⟩ | exact ⟨t9, c9⟩ | exact ⟨t10, c10⟩ | exact ⟨t11, c11⟩
+        | exact ⟨t12, c12⟩)
+    | cases h
 
 end ZV.P11
